@@ -742,7 +742,7 @@ impl Property for C19 {
     type Scenario = Scenario;
 
     fn rule() -> String {
-        "two seeded families. (wire, 60%) 2-3 hosts with 1-2 addresses, 0-2 rules installed with Net::rule before enter, then 10-40 events: rule install through EnterGuard::rule or the free rule() called from a polled task, guard kept / RuleGuard::forget / std::mem::forget, guard drop (also between two packets of one egress batch), tagged UDP datagrams between all hosts incl. loopback and own-address destinations, TCP connect/write/close, wire rounds; every rule is a table tag -> Pass|Drop|Deliver(0|0.3|1|2|2.5|3 ms) that logs each invocation; at every EnterGuard::evaluate the logged invocations and the returned verdict are compared with the reference chain (alive rules in installation order up to and including the first non-Pass; none/all Pass => Pass; a dropped guard's rule never again), the wire then honours the verdict and at the end each datagram must have been received exactly by its destination iff it was not dropped; own-host packets must never appear on the wire. (fixture, 40%) fixture::ClientServer with 1-2 servers (1/8: fixture::lo): an observer rule stamps each packet's egress instant on the paused tokio clock, 1-4 further table rules are installed from tasks at 1-6 ms and dropped at a later instant or forgotten, nodes send bursts of tagged datagrams and single tagged TCP messages at 0-10 ms; receivers stamp receipt; judged: first-match chain per evaluation, Deliver(d) => receipt - egress in [d, d+1ms], Pass => [0, 1ms], Drop => never received, equal deadlines at one socket => emission order, own-host traffic delivered and never shown to rules. Non-trivial: some packet was evaluated while >=2 alive rules gave different verdicts for it; distinct = digest of event kinds, verdict kinds, chain lengths".into()
+        "two seeded families. (wire, 60%) 2-3 hosts with 1-2 addresses, 0-2 rules installed with Net::rule before enter, then 10-40 events: rule install through EnterGuard::rule or the free rule() called from a polled task, guard kept / RuleGuard::forget / std::mem::forget, guard drop (also between two packets of one egress batch), tagged UDP datagrams between all hosts incl. loopback and own-address destinations, TCP connect/write/close, wire rounds; every rule is a table tag -> Pass|Drop|Deliver(0|0.3|1|2|2.5|3 ms) that logs each invocation; at every EnterGuard::evaluate the logged invocations and the returned verdict are compared with the reference chain (alive rules in installation order up to and including the first non-Pass; none/all Pass => Pass; a dropped guard's rule never again), the wire then honours the verdict and at the end each datagram must have been received exactly by its destination iff it was not dropped; own-host packets must never appear on the wire. (fixture, 40%) fixture::ClientServer with 1-2 servers (1/8: fixture::lo): an observer rule stamps each packet's egress instant on the paused tokio clock, 1-4 further table rules are installed from tasks at 1-6 ms and dropped at a later instant or forgotten, nodes send bursts of tagged datagrams and single tagged TCP messages at 0-10 ms; receivers stamp receipt; judged: first-match chain per evaluation, Deliver(d) => receipt - egress in [d, d+1ms], Pass => [0, 1ms], Drop => never received, equal deadlines at one socket => emission order, own-host traffic delivered and never shown to rules. Non-trivial: some packet was evaluated while >=2 alive rules gave different verdicts for it; distinct = digest of event kinds, verdict kinds, chain lengths. Added later: destinations 127.0.0.2 / 127.9.8.7 (never on the wire); datagrams to an address no host owns (must be in the next egress batch, i.e. shown to the rules); rule guards dropped while a contained panic unwinds; fixture: bursts of 22-40 datagrams alternating between two delays plus a crossing second burst.".into()
     }
     fn components_real() -> Vec<&'static str> {
         vec!["turmoil-net: Net::rule / EnterGuard::rule / rule() / RuleGuard (drop, forget) / Net::evaluate, Kernel::egress loopback fold-back, fixture::ClientServer, fixture::lo, fixture::Scheduler (pending queue, tick), shim sockets; tokio paused current-thread runtime inside the fixtures"]
